@@ -110,7 +110,7 @@ Lemma parse_proto_sim fx s s' f proto :
   sim s s' -> (0 < f_offP f)%nat -> (f_offP f <= len s)%nat -> parse_proto fx s' f proto = parse_proto fx s f proto.
 Proof.
   intros Hs H0 H1. pose proof (sim_slfrom _ _ _ Hs H1) as Hp.
-  unfold parse_proto.
+  rewrite !parse_proto_chain_eq. unfold parse_proto_chain.
   repeat match goal with |- context [if ?c then _ else _] => destruct c end; try reflexivity;
   rewrite (payload_view_sim s s') by (cbn; auto); rewrite (payload_view_pos s) by (cbn; auto);
   cbn [f_offP set_id] in *;
@@ -175,7 +175,7 @@ Qed.
 
 Theorem parse_sim c s s' : sim s s' -> parse c s' = parse c s.
 Proof.
-  intros Hs. pose proof (sim_wfx _ _ Hs) as Hwf. unfold parse, ether_is_valid.
+  intros Hs. pose proof (sim_wfx _ _ Hs) as Hwf. rewrite !parse_chain_eq. unfold parse_chain, ether_is_valid.
   rewrite (sim_len _ _ Hs).
   destruct (Nat.leb_spec 14 (len s)) as [Hlen|Hlen]; cbn [bind]; [|reflexivity].
   unfold ether_src, ether_dst, ether_header_len, ether_type.
